@@ -102,6 +102,17 @@ def gen(tier, rng, shard, nshards):
                 node = {"k": "BlockDiag", "via": "ctor", "mult": [int(rng.integers(1, 3)), 1], "args": [indef(int(rng.integers(2, 4))), indef(int(rng.integers(1, 4)))]}
             else:
                 node = {"k": "Product", "via": "ctor", "args": [indef(n), indef(n)]}
+        gram_tail = (not psd) and (not krylov_wish) and rng.random() < 0.06
+        if gram_tail:
+            # a square product of *rectangular* factors that starts (or ends) with a Gram pair of one operator object, X^T X W:
+            # no factor-wise rule applies, the automatic choice reads the annotations of the whole product
+            m_ = n + int(rng.integers(1, 4))
+            X = {"k": S.pick(rng, ["Dense", "Generic"]), "shape": [m_, n], "dt": dt, "seed": S.seed(rng), "gen": "svals", "svals": W.lin(1.0, 2.0, n)}
+            if rng.random() < 0.4:
+                X = {"k": "Sum", "via": "ctor", "args": [X, dict(X, seed=S.seed(rng))]}
+            Wn = W.gen_invertible(rng, 0, dt, n, False)
+            node = {"k": "Gram", "form": S.pick(rng, ["TA", "HA"]), "same": True, "via": S.pick(rng, ["fn", "ctor"]), "arg": X,
+                    **({"tail": [Wn]} if rng.random() < 0.7 else {"head": [Wn], "form": "AT"} if False else {"tail": [Wn]})}
         if psd:
             la = S.pick(rng, ["Lanczos", "Arnoldi"] if krylov_wish else [OMIT, "Auto", "Cholesky", "LU", "Lanczos", "Arnoldi"])
         else:
